@@ -145,58 +145,17 @@ def parseOp (t : List String) : Option Op :=
   | ["display", d, p] => do pure (.display (← n d) (← parsePieces p))
   | _ => none
 
-/-- operations outside `Op` (numbers, decoders): computed by the model's own definitions -/
-def extraOp (s : DState) (t : List String) : Option (World × Out) :=
-  let w := s.w
-  let build (d : Nat) (text : Bytes) : World × Out :=
-    if (w.get d).isSome then (w, .bad) else
-    match fromStr s.rf w.heap text with
-    | (some r, hp) => (w.put hp d (some r), .ok .unit)
-    | (none, hp) => ({ w with heap := hp }, .panicAlloc)
+/-- numbers and decoders: scripts name integer types by their Rust name (`nz_` = NonZero) -/
+def parseOp2 (t : List String) : Option Op :=
   match t with
   | ["int", d, ty, v] => do
-    let d ← d.toNat?
-    let v ← v.toInt?
-    if (w.get d).isSome then pure (w, .bad) else
-    match intToRepr s.rf w.heap ty v with
-    | none => none
-    | some (some r, hp) => pure (w.put hp d (some r), .ok .unit)
-    | some (none, hp) => pure ({ w with heap := hp }, .err)
-  | ["from_bool", d, b] => do
-    let d ← d.toNat?
-    pure (build d (if b == "1" then [0x74, 0x72, 0x75, 0x65] else [0x66, 0x61, 0x6c, 0x73, 0x65]))
-  | ["from_utf8", d, x] => do
-    let d ← d.toNat?
-    let b ← unhex x
-    if (w.get d).isSome then pure (w, .bad) else
-    if validUtf8 b then pure (build d b) else pure (w, .errUtf8)
-  | ["from_utf8_lossy", d, x] => do
-    let d ← d.toNat?
-    let b ← unhex x
-    if (w.get d).isSome then pure (w, .bad) else
-    -- with_capacity(buf.len()), then push_str(valid) / push(U+FFFD) per chunk
-    match withCapacity s.rf w.heap b.length with
-    | (none, hp) => pure ({ w with heap := hp }, .panicAlloc)
-    | (some r0, hp0) => pure (finishTemp w d (pushLoop s.rf w.statics hp0 r0 (lossyPushes b)))
-  | ["from_utf16", d, x] => do
-    let d ← d.toNat?
-    let u ← unhex16 x
-    if (w.get d).isSome then pure (w, .bad) else
-    match withCapacity s.rf w.heap u.length with
-    | (none, hp) => pure ({ w with heap := hp }, .panicAlloc)
-    | (some r0, hp0) =>
-      let items := decodeUtf16 u
-      -- an unpaired surrogate returns `Err` and drops the partial string
-      match pushLoop s.rf w.statics hp0 r0 items with
-      | .pcb hp r => match releaseRepr hp r with
-        | .ok hp' => pure ({ w with heap := hp' }, .errUtf16)
-        | .error e => pure (w, .ub e)
-      | other => pure (finishTemp w d other)
-  | ["from_utf16_lossy", d, x] => do
-    let d ← d.toNat?
-    let u ← unhex16 x
-    let items := (decodeUtf16 u).map fun o => match o with | some c => some c | none => some replacement
-    pure (step s.rf w (.collectChars d ((u.length + 1) / 2) items))
+    let base := if ty.startsWith "nz_" then (ty.drop 3).toString else ty
+    pure (.fromInt (← d.toNat?) (← IntTy.ofName base) (← v.toInt?))
+  | ["from_bool", d, b] => do pure (.fromBool (← d.toNat?) (b == "1"))
+  | ["from_utf8", d, x] => do pure (.fromUtf8 (← d.toNat?) (← unhex x))
+  | ["from_utf8_lossy", d, x] => do pure (.fromUtf8Lossy (← d.toNat?) (← unhex x))
+  | ["from_utf16", d, x] => do pure (.fromUtf16 (← d.toNat?) (← unhex16 x))
+  | ["from_utf16_lossy", d, x] => do pure (.fromUtf16Lossy (← d.toNat?) (← unhex16 x))
   | _ => none
 
 def obsLine (w0 w1 : World) (out : Out) : String :=
@@ -230,8 +189,8 @@ def stepLine (s : DState) (line : String) : DState × Option String :=
     if line.startsWith "#" then (s, none) else
     let res : World × Out := match parseOp t with
       | some op => step s.rf s.w op
-      | none => match extraOp s t with
-        | some r => r
+      | none => match parseOp2 t with
+        | some op => step s.rf s.w op
         | none => (s.w, .bad)
     let (w1, out) := res
     -- a refused request consumes its one-shot fault
